@@ -18,27 +18,39 @@
 (* is why they need no action of their own.  CAS = FALSE is the            *)
 (* load-compare-store shape of the pinned commit (TLC finds the lost       *)
 (* update), CAS = TRUE the compare-and-swap loop of the repaired code.     *)
+(* Retries > 0 is the shape of a loop that gives up: after that many lost  *)
+(* swaps on one bound the recorder moves on without having stored its      *)
+(* value (Retries = 0: the loop goes on until it wins).  With four         *)
+(* recorders of sizes 1..4 the one holding the true extreme can lose three *)
+(* swaps in a row; TLC prints the schedules that end with a wrong total,   *)
+(* and the driver forces them on the real code, which must end exact.      *)
 (***************************************************************************)
 EXTENDS Integers, Sequences, FiniteSets, TLC, Json
 
 CONSTANTS G,        \* set of goroutine ids (integers)
           SizeRange,\* sizes a call may record
           CAS,      \* BOOLEAN: repaired (CAS loop) or pinned (load/store) shape
-          Emit      \* BOOLEAN: print complete schedules as JSON at quiescence
+          Retries,  \* 0: a CAS loop retries until it wins; n > 0: it gives up after n lost swaps
+          Emit      \* "all": print every complete schedule as JSON at quiescence; "wrong": only those that end with
+                    \* a wrong total; "none"
 
 VARIABLES Size,     \* [G -> SizeRange] query size recorded by g   (chosen at Init, then fixed)
           Err,      \* [G -> BOOLEAN]  whether g records an error  (chosen at Init, then fixed)
-          ops, bytes, min, max, errs, pc, tmp, sched
+          ops, bytes, min, max, errs, pc, tmp, sched,
+          lost      \* [G -> Nat] swaps lost in the current loop
 
-vars == <<Size, Err, ops, bytes, min, max, errs, pc, tmp, sched>>
-view == <<Size, Err, ops, bytes, min, max, errs, pc, tmp>>
+vars == <<Size, Err, ops, bytes, min, max, errs, pc, tmp, sched, lost>>
+view == <<Size, Err, ops, bytes, min, max, errs, pc, tmp, lost>>
 
+\* (the give-up shape is explored for one assignment: recorder g records size g, nobody records an error)
 Init == /\ Size \in [G -> SizeRange] /\ Err \in [G -> BOOLEAN]
+        /\ (Retries > 0 => Size = [g \in G |-> g] /\ Err = [g \in G |-> FALSE])
         /\ ops = 0 /\ bytes = 0 /\ min = -1 /\ max = 0 /\ errs = 0
         /\ pc = [g \in G |-> "begin"]
         /\ tmp = [g \in G |-> 0]
-        /\ sched = <<>>
+        /\ sched = <<>> /\ lost = [g \in G |-> 0]
 
+GivesUp(g) == Retries > 0 /\ lost[g] + 1 >= Retries
 Step(g, what) == sched' = Append(sched, [g |-> g, at |-> what, saw |-> tmp'[g]])
 
 Begin(g) ==
@@ -47,7 +59,7 @@ Begin(g) ==
     /\ bytes' = bytes + Size[g]
     /\ tmp' = [tmp EXCEPT ![g] = min]          \* load(min); gate gMinLoaded
     /\ pc' = [pc EXCEPT ![g] = "min"]
-    /\ UNCHANGED <<Size, Err, min, max, errs>>
+    /\ UNCHANGED <<Size, Err, min, max, errs, lost>>
     /\ Step(g, "minLoaded")
 
 Finish(g) == IF Err[g] THEN errs' = errs + 1 ELSE errs' = errs
@@ -57,31 +69,40 @@ MinStep(g) ==
     /\ LET want == tmp[g] = -1 \/ Size[g] < tmp[g] IN
        IF ~want
          THEN /\ min' = min /\ tmp' = [tmp EXCEPT ![g] = max]          \* load(max)
-              /\ pc' = [pc EXCEPT ![g] = "max"] /\ Step(g, "maxLoaded")
+              /\ pc' = [pc EXCEPT ![g] = "max"] /\ lost' = [lost EXCEPT ![g] = 0] /\ Step(g, "maxLoaded")
          ELSE IF (~CAS) \/ min = tmp[g]
            THEN /\ min' = Size[g] /\ tmp' = [tmp EXCEPT ![g] = max]
-                /\ pc' = [pc EXCEPT ![g] = "max"] /\ Step(g, "maxLoaded")
-           ELSE /\ min' = min /\ tmp' = [tmp EXCEPT ![g] = min]        \* CAS failed: reload
-                /\ pc' = pc /\ Step(g, "minLoaded")
+                /\ pc' = [pc EXCEPT ![g] = "max"] /\ lost' = [lost EXCEPT ![g] = 0] /\ Step(g, "maxLoaded")
+           ELSE IF GivesUp(g)
+             THEN /\ min' = min /\ tmp' = [tmp EXCEPT ![g] = max]        \* lost once too often: moves on
+                  /\ pc' = [pc EXCEPT ![g] = "max"] /\ lost' = [lost EXCEPT ![g] = 0] /\ Step(g, "maxLoaded")
+             ELSE /\ min' = min /\ tmp' = [tmp EXCEPT ![g] = min]        \* CAS failed: reload
+                  /\ pc' = pc /\ lost' = [lost EXCEPT ![g] = @ + 1] /\ Step(g, "minLoaded")
     /\ UNCHANGED <<Size, Err, ops, bytes, max, errs>>
 
 MaxStep(g) ==
     /\ pc[g] = "max"
     /\ LET want == Size[g] > tmp[g] IN
        IF ~want
-         THEN /\ max' = max /\ tmp' = tmp /\ Finish(g)
+         THEN /\ max' = max /\ tmp' = tmp /\ Finish(g) /\ lost' = lost
               /\ pc' = [pc EXCEPT ![g] = "done"] /\ Step(g, "done")
          ELSE IF (~CAS) \/ max = tmp[g]
-           THEN /\ max' = Size[g] /\ tmp' = tmp /\ Finish(g)
+           THEN /\ max' = Size[g] /\ tmp' = tmp /\ Finish(g) /\ lost' = lost
                 /\ pc' = [pc EXCEPT ![g] = "done"] /\ Step(g, "done")
-           ELSE /\ max' = max /\ tmp' = [tmp EXCEPT ![g] = max] /\ errs' = errs
-                /\ pc' = pc /\ Step(g, "maxLoaded")
+           ELSE IF GivesUp(g)
+             THEN /\ max' = max /\ tmp' = tmp /\ Finish(g) /\ lost' = lost
+                  /\ pc' = [pc EXCEPT ![g] = "done"] /\ Step(g, "done")
+             ELSE /\ max' = max /\ tmp' = [tmp EXCEPT ![g] = max] /\ errs' = errs
+                  /\ pc' = pc /\ lost' = [lost EXCEPT ![g] = @ + 1] /\ Step(g, "maxLoaded")
     /\ UNCHANGED <<Size, Err, ops, bytes, min>>
 
 AllDone == \A g \in G : pc[g] = "done"
+MinOf == CHOOSE x \in {Size[g] : g \in G} : \A g \in G : x <= Size[g]
+MaxOf == CHOOSE x \in {Size[g] : g \in G} : \A g \in G : x >= Size[g]
+Exact == min = MinOf /\ max = MaxOf
 
 Quiesce == /\ AllDone
-           /\ Emit => PrintT(ToJson([size |-> Size, err |-> Err, sched |-> sched, min |-> min, max |-> max, ops |-> ops,
+           /\ (Emit = "all" \/ (Emit = "wrong" /\ ~Exact)) => PrintT(ToJson([size |-> Size, err |-> Err, sched |-> sched, min |-> min, max |-> max, ops |-> ops,
                                       bytes |-> bytes, errs |-> errs]))
            /\ UNCHANGED vars
 
